@@ -96,7 +96,7 @@ class Ctx:
         return p
 
     # ------------------------------------------------------------------ TLC
-    def tlc(self, module, cfg, env_extra=None, workers=None, timeout=3600, simulate=None, extra=None, allow_violation=False):
+    def tlc(self, module, cfg, env_extra=None, workers=None, timeout=3600, simulate=None, extra=None, allow_violation=False, partial_ok=False):
         """runs TLC on spec/<module>.tla with spec/<cfg>; returns dict(tags -> list of parsed JSON payloads,
         raw output, generated/distinct states). Raises Broken on TLC errors."""
         self.tlc_runs += 1
@@ -115,12 +115,18 @@ class Ctx:
         if extra:
             cmd += extra
         cmd.append(module + ".tla")
+        timed_out = False
         try:
             p = subprocess.run(cmd, cwd=work, env=env, capture_output=True, text=True, timeout=timeout)
-        except subprocess.TimeoutExpired:
-            raise Broken(f"TLC {module} timed out after {timeout}s")
-        out = p.stdout
-        res = {"raw": out, "tags": {}, "generated": 0, "distinct": 0, "rc": p.returncode}
+            out, rc = p.stdout, p.returncode
+        except subprocess.TimeoutExpired as e:
+            if not partial_ok:
+                raise Broken(f"TLC {module} timed out after {timeout}s")
+            out = e.stdout or ""
+            if isinstance(out, bytes):
+                out = out.decode("utf-8", "replace")
+            rc, timed_out = 0, True
+        res = {"raw": out, "tags": {}, "generated": 0, "distinct": 0, "rc": rc, "timed_out": timed_out}
         for line in out.splitlines():
             if line.startswith('<<"'):
                 m = re.match(r'<<"([A-Z_]+)", (.*)>>\s*$', line)
@@ -135,13 +141,44 @@ class Ctx:
                 res["generated"], res["distinct"] = int(m.group(1)), int(m.group(2))
         self.tlc_states += res["distinct"]
         self.tlc_distinct += res["generated"]
-        failed = ("Error:" in out) or p.returncode not in (0,)
+        failed = ("Error:" in out) or rc not in (0,)
         if failed and not (allow_violation and "is violated" in out and "unexpected exception" not in out):
             shutil.copy(os.path.join(work, module + ".tla"), os.path.join(work, "failed.tla"))
             tail = "\n".join(l for l in out.splitlines() if not l.startswith(("Linting", "Semantic", "Parsing", '<<"')))[-5000:]
-            raise Broken(f"TLC {module}/{cfg} failed (rc={p.returncode}):\n{tail}")
+            raise Broken(f"TLC {module}/{cfg} failed (rc={rc}):\n{tail}")
         shutil.rmtree(work, ignore_errors=True)
         return res
+
+
+    def tlc_obs(self, module, path, ids, label, timeout=None):
+        """validates the ND-JSON records of `path` (ids = their record ids) with an Obs_* module.  A record whose
+        evaluation TLC does not finish in time (a pattern that is exponential for the plain backtracking specification but
+        not for the engine, and that the harness' cost probe did not predict) must not take the check down: the records
+        without a verdict are run again on their own, one per TLC state; those still without a verdict are dropped from this
+        run, logged and counted.  Returns (tags, dropped ids)."""
+        if timeout is None:
+            timeout = 420 if self.tier == "quick" else 1800
+        out = self.tlc(module, "Obs.cfg", env_extra={"VERIF_OBS": path}, timeout=timeout, partial_ok=True)
+        tags = out["tags"]
+        done = {r["id"] for r in tags.get("REC", [])}
+        missing = [i for i in ids if i not in done]
+        if not out["timed_out"]:
+            return tags, []
+        self.log(f"{label}: TLC gave no verdict on {len(missing)} of {len(ids)} records within {timeout}s; re-running those individually")
+        recs = {r["id"]: r for r in read_ndjson(path)}
+        p2 = path + ".retry"
+        write_ndjson(p2, [recs[i] for i in missing])
+        out2 = self.tlc(module, "Obs.cfg", env_extra={"VERIF_OBS": p2}, timeout=min(timeout, 240), partial_ok=True)
+        for k, vlist in out2["tags"].items():
+            tags.setdefault(k, []).extend(vlist)
+        done |= {r["id"] for r in out2["tags"].get("REC", [])}
+        dropped = [i for i in ids if i not in done]
+        if len(dropped) > max(3, len(ids) // 50):
+            raise Broken(f"{label}: TLC could not evaluate {len(dropped)} of {len(ids)} records in time")
+        if dropped:
+            self.log(f"{label}: {len(dropped)} record(s) dropped, too expensive for the specification: ids {dropped[:8]}")
+            self.dropped_records = getattr(self, "dropped_records", 0) + len(dropped)
+        return tags, dropped
 
 
 # ---------------------------------------------------------------------- known findings
@@ -250,6 +287,8 @@ def finish(ctx, res, attribute=None):
         "exhaustive": res.exhaustive,
         "tlc_runs": ctx.tlc_runs,
     }
+    if getattr(ctx, "dropped_records", 0):
+        cov["records_dropped_as_too_expensive_for_tlc"] = ctx.dropped_records
     cov.update(res.extra)
     ev = {
         "property_id": ctx.prop, "tier": ctx.tier, "seed": ctx.seed, "level": res.level, "coverage": cov,
